@@ -1909,10 +1909,13 @@ fn judge_extras<const N: usize, P: Pad>(
 /// same capacity, front slot, length and values as `h`. If the operation deviates there too, the
 /// deviation is recorded under its own property and enters the baseline, so that the same deviation
 /// on the post-fault buffer is not blamed on the fault.
-pub fn control_step<const N: usize, P: Pad>(h: &Holder<N, P>, model: &[(u64, u32)], op: &Op, ctx: &mut Ctx, mon: &MonCfg) {
+/// Returns true if the control deviated as well: from then on the buffer under test may be corrupted
+/// by a defect that has nothing to do with the fault, so the caller stops attributing.
+pub fn control_step<const N: usize, P: Pad>(h: &Holder<N, P>, model: &[(u64, u32)], op: &Op, ctx: &mut Ctx, mon: &MonCfg) -> bool {
     if ctx.attribute.is_none() {
-        return;
+        return false;
     }
+    let seen_before = ctx.total_reports;
     let obs = observe(h.buf_ref());
     let (start, len) = measured_layout(h.buf_ref(), &obs).unwrap_or((0, model.len()));
     let saved = ctx.attribute.take();
@@ -1930,9 +1933,16 @@ pub fn control_step<const N: usize, P: Pad>(h: &Holder<N, P>, model: &[(u64, u32
     }
     let _ = drop_holder(&mut hc);
     let _ = ledger_take_events();
-    ctx.attribute = saved;
     ctx.cur_case = saved_case;
     ctx.count("control_steps", 1);
+    if ctx.total_reports != seen_before {
+        // fault-independent defect: do not blame the fault for anything that follows in this case
+        ctx.count("attribution_dropped", 1);
+        true
+    } else {
+        ctx.attribute = saved;
+        false
+    }
 }
 
 /// Drop the buffer inside catch_unwind (a destructor failpoint may be armed by the caller).
